@@ -18,6 +18,8 @@ import (
 	"errors"
 	"fmt"
 	"os"
+	"unicode"
+	"unicode/utf8"
 )
 
 type Grammar struct {
@@ -87,7 +89,7 @@ func consistent(g *Grammar) (err error) {
 			if s == "empty" || s == "error" {
 				continue
 			}
-			if s[0] >= 'A' && s[0] <= 'Z' {
+			if first, _ := utf8.DecodeRuneInString(s); unicode.IsUpper(first) {
 				fmt.Fprintf(os.Stderr, "error: undefined symbol %q used in productions %q\n", s, in)
 				err = errUndefined
 			} else {
